@@ -180,7 +180,7 @@ Print Assumptions reuse_current_branches_on_sites.
 (* 4. Not vacuous, not syntactic. *)
 Example decisions_model_counts :
   List.length model = 22 /\ List.length (List.concat (map fn_items model)) = 52 /\
-  List.length (List.concat (map fn_pre model)) = 34.
+  List.length (List.concat (map fn_pre model)) = 36.
 Proof. exact model_counts. Qed.
 Print Assumptions decisions_model_counts.
 
